@@ -87,6 +87,7 @@ Proof.
     + inv H. exact I.
     + destruct (nth_error (vars st) x); inv H; [reflexivity | exact I].
     + destruct (nth_error (vars st) x); inv H; [destruct (z <? k)%Z; reflexivity | exact I].
+    + inv H. reflexivity.
     + destruct (s_args (seval defs n bl tg) args [] st) as [[o1|vs] st1] eqn:E; inv H.
       * eapply s_args_clean; eauto.
       * apply clean_mk_list.
@@ -222,6 +223,7 @@ Proof.
     + inv H. discriminate.
     + destruct (nth_error (vars st) x); inv H. discriminate.
     + destruct (nth_error (vars st) x); inv H. destruct (z <? k)%Z; discriminate.
+    + inv H. discriminate.
     + destruct (m_args (meval defs n sc tb) args [] st) as [[o|vs] st1] eqn:E; inv H.
       * exfalso. eapply m_args_inl; eauto.
       * apply mk_list_mv.
@@ -653,6 +655,7 @@ Proof.
     + (* Incf *) destruct (nth_error (vars st) x); inv HS; fin.
     + (* Lt *) destruct (nth_error (vars st) x); inv HS; [| fin].
       eexists. split; [reflexivity|]. split; [destruct (z <? k)%Z; reflexivity | exact I].
+    + (* Setv *) inv HS. fin.
     + (* CallList *)
       destruct (s_args (seval defs n bl tg) args [] st) as [[o1|vs] st1] eqn:E; inv HS.
       * pose proof (args_rel _ _ (CL bl tg) pb IH0 args [] st _ _ Gd E) as X. cbn in X.
